@@ -4,7 +4,7 @@ use super::*;
 use crate::verif_spec::fmt;
 use crate::verif_spec::src::Src;
 
-fn check_user_data(data: &[u8]) -> bool {
+pub(crate) fn check_user_data(data: &[u8]) -> bool {
     let got = parse_userdata_chunk(data);
     let decoded_ok = got.is_ok();
     match (&got, fmt::user_data(data)) {
